@@ -70,6 +70,16 @@ REDUCED = ([{"pattern": p, "merchant": f"M{i}", "category": "Cat", "subcategory"
             {"pattern": "COSTCO", "merchant": " Padded Name ", "category": " Padded Cat ", "subcategory": " Padded Sub ", "tags": " t1 | t2 "}])
 
 
+# a small family of three-row files (also in the quick tier): two categories interleaved, general and specific patterns overlapping -
+# the order of the rows in the migrated file is the order of the CSV
+TRI = [{"pattern": "COSTCO", "merchant": "Costco", "category": "Food", "subcategory": "Grocery", "tags": ""},
+       {"pattern": r"COSTCO\s+GAS", "merchant": "Costco Gas", "category": "Transport", "subcategory": "Fuel", "tags": "car"},
+       {"pattern": "NETFLIX", "merchant": "Netflix", "category": "Food", "subcategory": "Odd", "tags": ""},
+       {"pattern": "GAS", "merchant": "Any Gas", "category": "Transport", "subcategory": "Gas", "tags": ""},
+       {"pattern": "AMAZON|COSTCO", "merchant": "Big Box", "category": "Shopping", "subcategory": "", "tags": "bulk"},
+       {"pattern": ".*", "merchant": "Everything", "category": "Food", "subcategory": "Misc", "tags": ""}]
+
+
 def bounds(tier):
     return {"single_row_product": len(PATTERNS) * len(MODS) * len(NAMES) * 2 * len(TAGS), "reduced_alphabet": len(REDUCED),
             "sequence_len": 2 if tier == "quick" else 3, "descriptions": len(DESCS), "amounts": AMTS, "dates": DATES}
@@ -79,6 +89,8 @@ def gen_cases(tier):
     for p, m, n, c, t in itertools.product(range(len(PATTERNS)), range(len(MODS)), range(len(NAMES)), (1, 0), range(len(TAGS))):
         yield {"rows": [{"pattern": PATTERNS[p] + MODS[m], "merchant": NAMES[n], "category": "Cat" if c else "",
                          "subcategory": "Sub" if c else "", "tags": TAGS[t]}], "comments": False}
+    for seq in itertools.permutations(range(len(TRI)), 3):
+        yield {"rows": [TRI[i] for i in seq], "comments": False}
     k = 2 if tier == "quick" else 3
     for n in range(2, k + 1):
         for seq in itertools.permutations(range(len(REDUCED)), n):
